@@ -362,8 +362,9 @@ ParseTampered ==
 TamperSets(E) == {T \in SUBSET E : Cardinality(T) <= TamperMax \/ Cardinality(T) >= Cardinality(E) - 1}
 
 TamperNext ==
-    \E T \in TamperSets(ApplicableElems(ver, ev)) :
-    \E hm \in HashModes :
+    /\ phase = "tamper"
+    /\ \E T \in TamperSets(ApplicableElems(ver, ev)) :
+       \E hm \in HashModes :
         \* a forger's re-hash of unchanged hashed material is the original hash: same as "keep"
         /\ ((hm = "rehash") => (T \cap HashedElems(ver) # {})) = TRUE
         /\ Tamper(T, hm)
